@@ -173,7 +173,7 @@ class C09(Prop):
             "blank after each inner comma; b is the first / middle / last / only column, followed by a permuted subset of "
             "NOT NULL, DEFAULT, COMMENT; optionally an after-columns clause; drawn layout; non-trivial = depth >= 1 or a "
             "size form other than none, with >= 1 following option and >= 1 neighbour column; distinct = SHA-1 of the case")
-    budgets = {"quick": 4000, "thorough": 200000}
+    budgets = {"quick": 10000, "thorough": 200000}
     assumptions = [
         "parenthesised sizes inside angle brackets (array<decimal(10,2)>) and [] after an angle type are not generated (grammar rejects / rewrites them)",
         "'timestamp with time zone' is reported through with_time_zone and not generated as a two-word type",
